@@ -278,12 +278,15 @@ def Sess.removeSimple (s : Sess) (k : Kind) (ie : RuleIE) (c : Ctx) : Sess × Ct
       else (s, c')
     else (s, c)
 
+/-- `urrInfo.refPdrNum++` for URR `u`, if the session knows it -/
+def bumpRef (us : List (Nat × URRInfo)) (u : Nat) : List (Nat × URRInfo) :=
+  us.map fun p => (p.1, if p.1 == u then { p.2 with refPdrNum := p.2.refPdrNum + 1 } else p.2)
+
 /-- `CreatePDR`: pdrid defaults to 0; every URR ID child bumps the reference count of a known URR;
     the id is recorded (overwriting) before the driver call -/
 def Sess.createPDR (s : Sess) (ie : RuleIE) (c : Ctx) : Sess × Ctx :=
   let pdrid := ie.id.getD 0
-  let urrs' := ie.urrs.foldl (fun us u =>
-    us.map fun (k, info) => if k == u then (k, { info with refPdrNum := info.refPdrNum + 1 }) else (k, info)) s.urrs
+  let urrs' := ie.urrs.foldl bumpRef s.urrs
   let s' := { s with urrs := urrs', pdrs := alSet s.pdrs pdrid ie.urrs.eraseDups }
   let (c', _) := c.call { seid := s.localID, op := .create, kind := .pdr, id := pdrid }
   (s', c')
@@ -321,8 +324,7 @@ def Sess.updatePDR (s : Sess) (ie : RuleIE) (c : Ctx) : Sess × Ctx × List Repo
     if !a.ok then (s, c1, []) else
     let (s2, c2, rs) := s.diassociateAll (old.filter (· ∉ newU)) c1
     let added := newU.filter (· ∉ old)
-    let urrs' := added.foldl (fun us u =>
-      us.map fun (k, info) => if k == u then (k, { info with refPdrNum := info.refPdrNum + 1 }) else (k, info)) s2.urrs
+    let urrs' := added.foldl bumpRef s2.urrs
     ({ s2 with urrs := urrs', pdrs := alSet s2.pdrs pdrid newU }, c2, rs)
 
 /-- `RemovePDR` -/
@@ -335,8 +337,9 @@ def Sess.removePDR (s : Sess) (ie : RuleIE) (c : Ctx) : Sess × Ctx × List Repo
     | some us =>
       let (c1, a) := c.call { seid := s.localID, op := .remove, kind := .pdr, id := pdrid }
       if !a.ok then (s, c1, []) else
-      let (s2, c2, rs) := s.diassociateAll us c1
-      ({ s2 with pdrs := alDel s2.pdrs pdrid }, c2, rs)
+      -- (`delete(s.PDRIDs, pdrid)` comes after the dissociation loop in node.go; the loop does not read the PDR map,
+      --  so the model deletes first — same result, and the driver call and the bookkeeping change stay together)
+      ({ s with pdrs := alDel s.pdrs pdrid } : Sess).diassociateAll us c1
 
 /-- `CreateURR`: a fresh `URRInfo` (overwriting any old one) is recorded before the driver call -/
 def Sess.createURR (s : Sess) (ie : RuleIE) (c : Ctx) : Sess × Ctx :=
@@ -349,6 +352,15 @@ def Sess.createURR (s : Sess) (ie : RuleIE) (c : Ctx) : Sess × Ctx :=
     let (c', _) := c.call { seid := s.localID, op := .create, kind := .urr, id := id }
     (s', c')
 
+/-- the Measurement Method / Measurement Information children of an Update URR overwrite the recorded flags -/
+def URRInfo.applyUpdate (info : URRInfo) (ie : RuleIE) : URRInfo :=
+  let info1 := match ie.meth with
+    | some (d, v) => { info with durat := d, volum := v }
+    | none => info
+  match ie.mnop with
+  | some m => { info1 with mnop := m }
+  | none => info1
+
 def Sess.updateURR (s : Sess) (ie : RuleIE) (c : Ctx) : Sess × Ctx × List Report :=
   match ie.id with
   | none => (s, c, [])
@@ -356,13 +368,7 @@ def Sess.updateURR (s : Sess) (ie : RuleIE) (c : Ctx) : Sess × Ctx × List Repo
     match alGet s.urrs id with
     | none => (s, c, [])
     | some info =>
-      let info1 := match ie.meth with
-        | some (d, v) => { info with durat := d, volum := v }
-        | none => info
-      let info2 := match ie.mnop with
-        | some m => { info1 with mnop := m }
-        | none => info1
-      let s' := { s with urrs := alSet s.urrs id info2 }
+      let s' := { s with urrs := alSet s.urrs id (info.applyUpdate ie) }
       let (c', a) := c.call { seid := s.localID, op := .update, kind := .urr, id := id }
       if a.ok then (s', c', a.reports) else (s', c', [])
 
@@ -480,10 +486,12 @@ def LNode.setSess (n : LNode) (s : Sess) : LNode :=
 
 /-- `LocalNode.RemoteSess`: first live slot whose control-plane SEID and node address match
     (released slots are skipped — after the `fix:` for C05). -/
+def matchRemote (nodes : List RNode) (rSeid : Seid) (addr : String) : Option Sess → Bool
+  | some s => s.remoteID == rSeid && ((nodes.getD s.rnode default).addr == addr)
+  | none => false
+
 def LNode.remoteSess (n : LNode) (nodes : List RNode) (rSeid : Seid) (addr : String) : Option Sess :=
-  (n.sess.find? fun o => match o with
-    | some s => s.remoteID == rSeid && ((nodes.getD s.rnode default).addr == addr)
-    | none => false).join
+  (n.sess.find? (matchRemote nodes rSeid addr)).join
 
 /-! ### the server -/
 
